@@ -245,7 +245,7 @@ func c02XML(src []byte) *c02Fail {
 			if tok[k] == orig[k] {
 				continue
 			}
-			inQuoted := valOff >= 0 && len(val) >= 2 && (val[0] == '"' || val[0] == '\'') && k > valOff && k < valOff+len(val)-1
+			inQuoted := valOff >= 0 && (val[0] == '"' || val[0] == '\'') && k > valOff && k < valOff+len(val) // the value may be unterminated (NUL or end of input), so its last byte counts
 			if !(inQuoted && tok[k] == ' ' && (orig[k] == '\t' || orig[k] == '\n' || orig[k] == '\r')) {
 				return &c02Fail{"c02-xml-altered:" + tt.String(), fmt.Sprintf("xml: token %v alters input %q to %q at byte %d", tt, orig, tok, k)}
 			}
